@@ -456,6 +456,7 @@ func taskDone(t *task) {
 		// cannot happen if the harness calls EndCall; defensive
 		leak(t, "task finished")
 	}
+	t.local++ // its own key: the last point of the task may already carry a recorded switch
 	n := pickForced(t)
 	if n == nil {
 		all := true
